@@ -31,7 +31,7 @@ def slit(s):
     """a Python string as a Gallina list of code points"""
     if all(32 <= ord(ch) < 127 and ch != '"' for ch in s):
         return f'(codes "{s}")'
-    return listlit([zlit(ord(ch)) for ch in s])
+    return listlit([f'{ord(ch)}%Z' for ch in s])
 
 
 def fq(x):
@@ -178,22 +178,22 @@ def main():
 
     def add_decode(h, base):
         r = impl_decode(h, base)
-        i = add(f'KDecode {base} {slit(h)} {reslit(r, q4)}',
+        i = add(f'KDecode {zlit(base)} {slit(h)} {reslit(r, q4)}',
                 {'k': 'decode', 'base': base, 'hash': h, 'out': [r[0], [jf(v) for v in r[1]] if r[0] == 'Ok' else r[1]]})
         return i, r
 
     def add_encode(c, L, base, expect=None, why=''):
         rt = next(route) % 4
         r = impl_encode(c, L, base, rt)
-        i = add(f'KEncode {base} {fq(c.longitude)} {fq(c.latitude)} {zlit(L)} {reslit(r, slit)}',
+        i = add(f'KEncode {zlit(base)} {fq(c.longitude)} {fq(c.latitude)} {zlit(L)} {reslit(r, slit)}',
                 {'k': 'encode', 'base': base, 'lon': jf(c.longitude), 'lat': jf(c.latitude), 'len': L, 'route': rt,
                  'out': list(r)})
         if expect is not None and r != ('Ok', expect):
             flag(i, why, f'got {r}, expected {expect!r}')
         return i, r
 
-    def add_box(h, base, dec, pts):
-        rt = next(route) % 3
+    def add_box(h, base, dec, pts, nroutes=3):
+        rt = next(route) % nroutes
         r = impl_box(h, base, rt)
         inr = in_range(dec)
         east = cell_of(dec)[1]
@@ -259,7 +259,7 @@ def main():
                 elif L <= 2:
                     # cells of the +-180 latitude range that leave the coordinate range: only the
                     # model/implementation agreement of the wrapped corners is looked at
-                    add_box(h, base, dec, [(lon, max(-90.0, min(90.0, lat)))])
+                    add_box(h, base, dec, [(lon, max(-90.0, min(90.0, lat)))], nroutes=2)
     ck.cov['classes']['cells_enumerated'] = n_cells
     ck.cov['classes']['cells_in_range'] = n_inrange
 
@@ -345,8 +345,11 @@ def main():
         ck.sample(cases[max(0, min(i, len(cases) - 1))])
 
     bad, broken = ck.corr('geohash', 'From Coq Require Import QArith String.\nFrom GV Require Import Prelude GeohashM GeohashK.\n'
-                                     'Open Scope string_scope. Open Scope Z_scope.', 'check', cases, chunk=800)
+                                     'Open Scope string_scope. Open Scope Z_scope. Open Scope Q_scope.', 'check', cases, chunk=800)
 
+    if os.environ.get('VERIF_DEBUG'):
+        for i in bad[:12]:
+            print('DEBUG bad', i, cases[i][:400])
     reported = 0
     allbad = sorted(set(bad) | set(flagged))
     # report property-level failures first (they carry the clause), then pure model/implementation gaps
